@@ -629,7 +629,8 @@ def c13():
                      "C13_centroid_unpacked", "C13_centroid_packed", "C13_centroid_packed_nonbinary",
                      "C13_centroid_packed_len5", "C13_centroid_packed_recorded_witness", "C13_isim", "C13_arr_vec", "C13_argmin",
                      "C13_most_dissimilar", "C13_most_dissimilar_shape", "C13_nonvacuous",
-                     "C13_nf_ok_nonmultiple"],
+                     "C13_nf_ok_nonmultiple",
+                     "C13_add_rows", "C13_add_rows_wrap", "C13_add_rows_bits", "C13_isim_unpacked", "C13_isim_unpacked_bits", "C13_isim_packed", "C13_isim_packed_any", "C13_isim_packed_none", "C13_isim_packed_negative", "C13_isim_packed_colsum"],
         "model_files": ["Model/Cpp.v", "Model/ObsCpp.v", "Model/Sim.v"],
         "suites": [suite_cpp.suite_cpp_corpus, suite_cpp.suite_cpp, suite_cpp.suite_cpp_large, suite_cpp.suite_cpp_e2e, suite_bits.suite_bits],
         "search": suite_cpp.search_c13,
